@@ -522,6 +522,13 @@ fn runtime() -> tokio::runtime::Runtime {
 
 /// Runs a stored case (re-running it while the timing was off).
 fn run_stored(rt: &tokio::runtime::Runtime, c: &[u64]) -> Vec<u64> {
+    if c.first() == Some(&2) {
+        // report level (the reporting side of ProtocolSet under back-pressure)
+        return match crate::c08_report::parse(c) {
+            Some((n, cap, ops)) => crate::c08_report::run(rt, n, cap, &ops),
+            None => vec![0],
+        };
+    }
     let Some((ka, t, n0, ops)) = parse_case(c) else { return vec![0] };
     let mut last = vec![0];
     for _ in 0..6 {
@@ -578,6 +585,16 @@ pub fn main(args: &Args, c09: bool) {
         let (c, t) = catch_unwind(AssertUnwindSafe(|| gen_one(&rt, r, false, thorough)))
             .unwrap_or((vec![0], vec![PANIC_MARK]));
         out.emit(&c, &t);
+    }
+    // report level: the real ProtocolSet reporting into small, slowly drained protocol channels
+    if !c09 {
+        let mut rr = Rng::new(seed ^ 0x8e90);
+        for _ in 0..(ncases / 3) {
+            let mut r = rr.fork();
+            let c = crate::c08_report::gen(&mut r, thorough);
+            let t = catch_unwind(AssertUnwindSafe(|| run_stored(&rt, &c))).unwrap_or(vec![PANIC_MARK]);
+            out.emit(&c, &t);
+        }
     }
     // timed cases: real time, many threads (they mostly sleep)
     let seeds: Vec<Rng> = (0..n_timed).map(|_| rng.fork()).collect();
